@@ -333,10 +333,85 @@ pub fn check_dns_wellformed(b: &[u8]) -> Result<(), String> {
             return Err("label length".into());
         }
     }
-    let q = &d.questions[0];
-    let qend = 12 + enc_name(&q.name).len() + 4;
+    let qend = name_span(b, 12).ok_or("question name malformed")? + 4;
     if b.len() != qend {
         return Err("trailing bytes after the question".into());
     }
     Ok(())
+}
+
+/// Lenient view of a DNS response: walks the records as far as their framing allows, decoding
+/// each name independently (a name that cannot be decoded yields None but does not stop the
+/// walk). Used as an over-approximation of what any resolver could take from the datagram.
+pub struct LenientDns {
+    pub id: u16,
+    pub flags: u16,
+    pub qdcount: u16,
+    pub qname: Option<Vec<String>>,
+    pub qtype: u16,
+    /// (owner name, type, rdata, CNAME target)
+    pub records: Vec<(Option<Vec<String>>, u16, Vec<u8>, Option<Vec<String>>)>,
+}
+
+fn name_span(b: &[u8], mut i: usize) -> Option<usize> {
+    // end offset of the name as stored in place
+    loop {
+        let l = *b.get(i)? as usize;
+        if l == 0 {
+            return Some(i + 1);
+        }
+        if l & 0xc0 == 0xc0 {
+            b.get(i + 1)?;
+            return Some(i + 2);
+        }
+        if l & 0xc0 != 0 {
+            return None;
+        }
+        i += 1 + l;
+    }
+}
+
+pub fn dec_dns_lenient(b: &[u8]) -> Option<LenientDns> {
+    if b.len() < 12 {
+        return None;
+    }
+    let id = u16::from_be_bytes([b[0], b[1]]);
+    let flags = u16::from_be_bytes([b[2], b[3]]);
+    let qd = u16::from_be_bytes([b[4], b[5]]);
+    let an = u16::from_be_bytes([b[6], b[7]]) as usize;
+    let mut out = LenientDns { id, flags, qdcount: qd, qname: None, qtype: 0, records: vec![] };
+    if qd == 0 {
+        return Some(out);
+    }
+    let qe = name_span(b, 12)?;
+    out.qname = dec_name(b, 12).ok().map(|x| x.0);
+    if qe + 4 > b.len() {
+        return Some(out);
+    }
+    out.qtype = u16::from_be_bytes([b[qe], b[qe + 1]]);
+    let mut i = qe + 4;
+    // further questions are skipped the same way
+    for _ in 1..qd {
+        match name_span(b, i) {
+            Some(e) if e + 4 <= b.len() => i = e + 4,
+            _ => return Some(out),
+        }
+    }
+    for _ in 0..an {
+        let Some(ne) = name_span(b, i) else { break };
+        if ne + 10 > b.len() {
+            break;
+        }
+        let name = dec_name(b, i).ok().map(|x| x.0);
+        let rtype = u16::from_be_bytes([b[ne], b[ne + 1]]);
+        let rl = u16::from_be_bytes([b[ne + 8], b[ne + 9]]) as usize;
+        if ne + 10 + rl > b.len() {
+            break;
+        }
+        let rdata = b[ne + 10..ne + 10 + rl].to_vec();
+        let target = if rtype == T_CNAME { dec_name(b, ne + 10).ok().map(|x| x.0) } else { None };
+        out.records.push((name, rtype, rdata, target));
+        i = ne + 10 + rl;
+    }
+    Some(out)
 }
